@@ -6,12 +6,22 @@
   without Action tokens (nothing vanished) the pass is the identity on non-empty tokens;
   the pass never loses, duplicates, reorders or re-positions a visible character; its
   output text is the input text with some white-space characters deleted.
-  (`removes`/`needs_action`/`only_lines` of the design and the K₀ refinement are not yet
-  theorems: the layout relation glued / same paragraph / blank line is checked on the
-  implementation against a TeX-style reading of generated separators.)
+  End to end on the whole filter model (Properties/PlainVanishStmt.lean, imported here):
+  `C05_vanish_e2e` — for documents of inert text and vanishing macros (`\\label{key}`, `\\index{key}`,
+  … : declared with one mandatory argument, no handler, text-less replacement) the output is the
+  source with the calls cut out, every remaining character at its own position, a line that held
+  only such calls and white space disappears with its line break and every other line break
+  and blank line survives; corollaries `C05_vanish_same_line` (no line break added or removed
+  around a call inside a text line), `C05_vanish_no_par` (a call alone on its line between two
+  text lines does not become a paragraph break), `C03_vanish_no_key` (no output position lies
+  inside a call), instances on the current tables.
+  (The general layout relation glued / same paragraph / blank line for every vanishing
+  construct is checked on the implementation against a TeX-style reading of generated
+  separators.)
 -/
 import YalafiVerif.Proofs.Scanner
 import YalafiVerif.Proofs.Lines
+import YalafiVerif.Properties.PlainVanishStmt
 namespace Yalafi
 
 theorem C05_scanSpace_kind (start : Nat) (rest : Str) :
